@@ -166,10 +166,10 @@ PROPS["C08"] = {
     "assumptions": ["concrete operator semantics are those of DESIGN 3.4 (truncating division, floor shifts, infinite two's complement)"],
 }
 
-PROPS["C13"]["jobs"]["quick"].append({"name": "wint", "bin": "scalar", "engine": "wint", "cases": "all", "params": {"W": 4}, "min_shard": 1, "shards": 64})
+PROPS["C13"]["jobs"]["quick"].append({"name": "wint", "bin": "scalar", "engine": "wint", "cases": "all", "params": {"W": 5}, "min_shard": 1, "shards": 128})
 PROPS["C13"]["jobs"]["thorough"].append({"name": "wint", "bin": "scalar", "engine": "wint", "cases": "all", "params": {"W": 5}, "min_shard": 1, "shards": 128})
 PROPS["C13"]["technique"] += "; wrapped intervals: exhaustive enumeration of all (start,end) pairs, operators and members for small widths against uint64 arithmetic in the harness"
-PROPS["C13"]["level_text"] += " Wrapped intervals: every (start,end) pair, top and bottom at widths 1..4 (thorough: 1..5) x every operator x every member of both operands; Trunc/ZExt/SExt/negation likewise."
+PROPS["C13"]["level_text"] += " Wrapped intervals: every (start,end) pair, top and bottom at widths 1..5 in both tiers x every operator x every member of both operands; Trunc/ZExt/SExt/negation likewise."
 PROPS["C13"]["rule"] += "; wint: a case is one first wrapped interval (all second operands, operators and members enumerated inside)"
 
 ENGINES[-2]["serves_properties"] = ["C01", "C02", "C03", "C04", "C05"]
